@@ -91,6 +91,19 @@ def build_payload(case_rng, par):
         kw["guard_truncate"] = par["gtrunc"]
     if par["neg"] == "rndpad":
         kw["rnd_pad"] = True
+    if par.get("guardlook"):
+        # the masked guard configuration (the last 2048 bytes of the protected area) holds bytes that read as the
+        # configuration header under a default single-byte key
+        mb_rev = P.rx1(P.rxk(cfg.ljust(6144, b"\0"), par["envkey"]), 0x2E)[::-1]
+        j, k1 = par["guardlook"]
+        pat = bytes(h ^ k1 for h in b"\x00\x01\x00\x01\x00\x02\x00")
+
+        def plant(g, j=j, pat=pat, mb_rev=mb_rev):
+            g = bytearray(g)
+            g[j : j + 7] = bytes(p_ ^ 0x8A ^ m for p_, m in zip(pat, mb_rev[j : j + 7]))
+            return bytes(g)
+
+        kw["guard_plain_mutator"] = plant
     gb, ginfo = P.guard_block(rng, cfg, par["envkey"], opts, **kw)
     if par["neg"] == "cfg-byte":
         b = bytearray(gb)
@@ -174,7 +187,7 @@ def check_case(case, ctx):
         g = c.guardrails
         if g is None:
             key = None
-            if par["keykind"] in ("lead7", "constant", "headerlike") and not key_is_top_ngram(ginfo["padded"], par["envkey"]):
+            if (par["keykind"] in ("lead7", "constant", "headerlike") or par.get("guardlook")) and not key_is_top_ngram(ginfo["padded"], par["envkey"]):
                 key = "guardrails-key-frequency-heuristic"  # the Guardrails route cannot find the key, the look-alike block is what is left
             ctx.violation("recover.exact", "configuration returned without guardrails metadata (found by another route?)", case, key=key)
             return
@@ -234,7 +247,8 @@ def check_case(case, ctx):
     ctx.ok(fp=payload, case={"par": {k: v for k, v in par.items()}, "payload_len": len(payload)}, classes=(
         f"neg:{neg}", f"keylen:{'2-8' if len(par['envkey']) <= 8 else '9-64' if len(par['envkey']) <= 64 else '65-256'}",
         f"opts:{'+'.join(map(str, par['opts']))}", f"container:{par['container']}", f"xorenc:{par['xorenc']}", f"keykind:{par['keykind']}", f"decoy:{par.get('decoy')}",
-        "bulk:none" if not par.get("bulk") else f"bulk:{'random' if par['bulk']['byte'] is None else 'run'}"))
+        "bulk:none" if not par.get("bulk") else f"bulk:{'random' if par['bulk']['byte'] is None else 'run'}", f"guardlook:{bool(par.get('guardlook'))}",
+        f"seam@block-boundary:{(base + 6138) % 8192 > 8180 or (base + 6138) % 8192 == 0}"))
 
 
 def gen_key(rng, length):
@@ -297,6 +311,12 @@ def gen_par(rng, keylen, neg=None):
         "arch": rng.choice(["x86", "x64"]), "xorenc": rng.random() < 0.2, "stub": rng.choice([0, 57, 300]),
         "decoy": rng.choice([None, None, None, "marker", "copy"]) if neg is None else None,
     }
+    if neg is None and rng.random() < 0.12:
+        par["guardlook"] = (rng.randrange(200, 2040), rng.choice([0x69, 0x2E, 0x00]))
+        par["decoy"] = None
+    # positions at which the 12 bytes of the seam between configuration and guard configuration straddle a read-block boundary
+    if rng.random() < 0.15:
+        par["pre"] = rng.choice([8192, 16384]) - 6138 - rng.randrange(0, 13) + (0 if par["container"] == "raw" else rng.randrange(0, 13))
     if par["decoy"] == "copy" and kind in ("lead7", "constant", "headerlike"):
         par["decoy"] = "marker"  # a damaged copy of such an area is a negative case of its own, see above
     if neg is None and rng.random() < 0.2:
